@@ -248,7 +248,7 @@ def stepRes {σ : Type} (r : FS × Option Err) (st : σ) : FS × Rs.XOut Err σ 
 theorem body_ok (c : Cfg) (content) (root : Path) (hs : List (Except SrcErr Gen.ZipFile)) (i : Nat) (hi : i < 2 ^ 64) (f : Gen.ZipFile)
     (n : Name) (hname : f.data.get.file_name = utf8Encode n) (hn : n.length + 1 < 2 ^ 64)
     (hf : hs[i]? = some (.ok f)) (st) (fs : FS) :
-    @Gen.ZipArchive.extract.loop1_body pathOps _ _ _ _ _ (fsOps c content) errOps (dirOf root) (srcOps hs) (UInt64.ofNat i) st fs
+    @Gen.ZipArchive.place_entries.loop1_body pathOps _ _ _ _ _ (fsOps c content) errOps (dirOf root) (srcOps hs) (UInt64.ofNat i) st fs
       = stepRes (placeFile c true root (viewOf content (.ok f)) fs) (st ++ pendOf root n (view f).unixMode) := by
   have hidx : (srcOps hs).by_index (UInt64.ofNat i) fs = (fs, .ok f) := by
     show (match hs[(UInt64.ofNat i).toNat]? with
@@ -257,7 +257,7 @@ theorem body_ok (c : Cfg) (content) (root : Path) (hs : List (Except SrcErr Gen.
       | none => (fs, .panic)) = _
     rw [UInt64.toNat_ofNat_of_lt' hi, hf]
   have hnm : nameOf f = n := by unfold nameOf; rw [hname, strict_encode]; rfl
-  unfold Gen.ZipArchive.extract.loop1_body
+  unfold Gen.ZipArchive.place_entries.loop1_body
   simp only [bind_apply, hidx, tie_zipfile_enclosed_name f n hname hn]
   unfold placeFile viewOf
   simp only [hnm]
@@ -311,7 +311,7 @@ theorem body_ok (c : Cfg) (content) (root : Path) (hs : List (Except SrcErr Gen.
 
 theorem body_err (c : Cfg) (content) (root : Path) (hs : List (Except SrcErr Gen.ZipFile)) (i : Nat) (hi : i < 2 ^ 64)
     (e : SrcErr) (hf : hs[i]? = some (.error e)) (st) (fs : FS) :
-    @Gen.ZipArchive.extract.loop1_body pathOps _ _ _ _ _ (fsOps c content) errOps (dirOf root) (srcOps hs) (UInt64.ofNat i) st fs
+    @Gen.ZipArchive.place_entries.loop1_body pathOps _ _ _ _ _ (fsOps c content) errOps (dirOf root) (srcOps hs) (UInt64.ofNat i) st fs
       = stepRes (placeFile c true root (viewOf content (.error e)) fs) st := by
   have hidx : (srcOps hs).by_index (UInt64.ofNat i) fs = (fs, .err (.src e)) := by
     show (match hs[(UInt64.ofNat i).toNat]? with
@@ -319,7 +319,7 @@ theorem body_err (c : Cfg) (content) (root : Path) (hs : List (Except SrcErr Gen
       | some (.error e) => (fs, .err (Err.src e))
       | none => (fs, .panic)) = _
     rw [UInt64.toNat_ofNat_of_lt' hi, hf]
-  unfold Gen.ZipArchive.extract.loop1_body
+  unfold Gen.ZipArchive.place_entries.loop1_body
   simp only [bind_apply, hidx]
   rfl
 
@@ -342,40 +342,54 @@ theorem ofNat_succ (i : Nat) : UInt64.ofNat i + 1 = UInt64.ofNat (i + 1) := by
 theorem nameOf_eq {f : Gen.ZipFile} {n : Name} (h : f.data.get.file_name = utf8Encode n) : nameOf f = n := by
   unfold nameOf; rw [h, strict_encode]; rfl
 
-/-- the loop of `ZipArchive::extract` from index `i` on: the model's `placeFiles` over the remaining entries; the
-loop variable `modes` collects (depth, joined path, mode) of every entry that records a mode -/
+/-- a step of the collector's loop: the world, the vector, the outcome -/
+def stepResK {σ : Type} (r : FS × Option Err) (st : σ) : FS × σ × Rs.XOut Err Unit :=
+  match r with
+  | (fs1, some e) => (fs1, st, .err e)
+  | (fs1, none) => (fs1, st, .ok ())
+
+theorem forNK_succ {W E σ : Type} (body : UInt64 → σ → Rs.X W E σ) (n : Nat) (i : UInt64) (s : σ) (w : W) :
+    Rs.X.forNK body (n + 1) i s w =
+      (match body i s w with
+       | (w1, .ok s') => Rs.X.forNK body n (i + 1) s' w1
+       | (w1, .err e) => (w1, s, .err e)
+       | (w1, .panic) => (w1, s, .panic)) := rfl
+
+/-- the loop of `ZipArchive::place_entries` from index `i` on: the model's `placeFiles` over the remaining entries;
+the vector `modes` collects (depth, joined path, mode) of every entry placed completely that records a mode — when
+the loop fails, of the entries before the failing one (`placedCount`) -/
 theorem loop_eq (c : Cfg) (content) (root : Path) (hs : List (Except SrcErr Gen.ZipFile)) (hlen : hs.length < 2 ^ 64)
     (hok : HandlesOk hs) : ∀ (k i : Nat), i + k = hs.length → ∀ st fs,
-    Rs.X.forN (@Gen.ZipArchive.extract.loop1_body pathOps _ _ _ _ _ (fsOps c content) errOps (dirOf root) (srcOps hs))
+    Rs.X.forNK (@Gen.ZipArchive.place_entries.loop1_body pathOps _ _ _ _ _ (fsOps c content) errOps (dirOf root) (srcOps hs))
         k (UInt64.ofNat i) st fs
-      = stepRes (placeFiles c true root ((hs.drop i).map (viewOf content)) fs) (st ++ pendAll root (hs.drop i)) := by
+      = stepResK (placeFiles c true root ((hs.drop i).map (viewOf content)) fs)
+          (st ++ pendAll root ((hs.drop i).take (placedCount c true root ((hs.drop i).map (viewOf content)) fs))) := by
   intro k
   induction k with
   | zero =>
     intro i hi st fs
     have : hs.drop i = [] := List.drop_eq_nil_of_le (by omega)
     rw [this]
-    simp [Rs.X.forN, placeFiles, stepRes, pendAll, Rs.X.ret]
+    simp [Rs.X.forNK, placeFiles, stepResK, pendAll]
   | succ k ih =>
     intro i hi st fs
     have hlt : i < hs.length := by omega
     have hd : hs.drop i = hs[i] :: hs.drop (i + 1) := List.drop_eq_getElem_cons hlt
     have hget : hs[i]? = some hs[i] := List.getElem?_eq_getElem hlt
-    rw [forN_succ, bind_apply, hd, ofNat_succ]
-    simp only [List.map_cons, placeFiles]
+    rw [forNK_succ, hd, ofNat_succ]
+    simp only [List.map_cons, placeFiles, placedCount]
     rcases hh : hs[i] with e | f
     · rw [hh] at hget
       rw [body_err c content root hs i (by omega) e hget]
-      simp [placeFile, viewOf, stepRes]
+      simp [placeFile, viewOf, stepRes, stepResK, pendAll]
     · rw [hh] at hget
       obtain ⟨n, hname, hn⟩ := hok f (by rw [← hh]; exact List.getElem_mem hlt)
       rw [body_ok c content root hs i (by omega) f n hname hn hget]
       rcases hp : placeFile c true root (viewOf content (Except.ok f)) fs with ⟨fs1, _ | er⟩
       · simp only [stepRes]
         rw [ih (i + 1) (by omega)]
-        simp only [pendAll, nameOf_eq hname, List.append_assoc]
-        rfl
-      · simp [stepRes]
+        simp only [List.take_succ_cons, pendAll, nameOf_eq hname, List.append_assoc]
+      · simp [stepRes, stepResK, pendAll]
 
 /-! ### `apply_unix_modes` -/
 
@@ -527,36 +541,67 @@ theorem pendAll_eq (root : Path) (content) : ∀ hs : List (Except SrcErr Gen.Zi
             exact ⟨pathDepth_lt n hn, md.toNat_lt⟩
           · exact ih2 p h
 
+/-- a run of the placing loop that succeeds has placed every entry -/
+theorem placedCount_all {c : Cfg} {chk : Bool} {root : Path} {es : List EntryView} {fs fs1 : FS}
+    (h : placeFiles c chk root es fs = (fs1, none)) : placedCount c chk root es fs = es.length := by
+  induction es generalizing fs with
+  | nil => rfl
+  | cons e0 es ih =>
+    simp only [placeFiles] at h
+    simp only [placedCount, List.length_cons]
+    split at h
+    · cases h
+    · next fs2 he => rw [ih h]
+
+theorem handlesOk_take {hs : List (Except SrcErr Gen.ZipFile)} (hok : HandlesOk hs) (n : Nat) : HandlesOk (hs.take n) :=
+  fun f hf => hok f (List.mem_of_mem_take hf)
+
+theorem metaOf_take (content) (hs : List (Except SrcErr Gen.ZipFile)) (n : Nat) :
+    metaOf content (hs.take n) = ((hs.map (viewOf content)).take n).map fun e => (e.name, e.mode) := by
+  unfold metaOf
+  rw [List.map_take]
+
 /-- **`ZipArchive::extract` is the model's `extractSeek`**: for every filesystem state, every behaviour of the archive
 reader (`hs`: what `by_index(i)` answers; `content`: what `io::copy` receives from a handle and whether the read then
 fails) and every target directory: all entries are placed in archive order (`placeFiles`, with the `exists` test in
-front of `create_dir_all(parent)`), the first error ends the run and leaves what was done; then the recorded modes
-are applied, deepest path first, same depth in archive order (`modeOrder`, `applyModes`). -/
+front of `create_dir_all(parent)`), the first error ends the placing and leaves what was done; then the recorded
+modes — after an error: those of the entries placed before the failing one — are applied, deepest path first, same
+depth in archive order (`modeOrder`, `applyModes`); after an error of the placing the outcome of that is ignored and
+the error of the placing is returned. -/
 theorem tie_extract_seek (c : Cfg) (content : Gen.ZipFile → Bytes × Option SrcErr) (root : Path)
     (hs : List (Except SrcErr Gen.ZipFile)) (hlen : hs.length < 2 ^ 64) (hok : HandlesOk hs) (fs : FS) :
     @Gen.ZipArchive.extract pathOps _ _ _ _ _ (fsOps c content) errOps (srcOps hs) (dirOf root) fs
       = ofModel (extractSeek c root (hs.map (viewOf content)) fs) := by
-  unfold Gen.ZipArchive.extract extractSeek
-  have hl : Rs.X.forRange (0 : UInt64) (srcOps hs).len
-      (@Gen.ZipArchive.extract.loop1_body pathOps _ _ _ _ _ (fsOps c content) errOps (dirOf root) (srcOps hs)) [] fs
-      = stepRes (placeFiles c true root (hs.map (viewOf content)) fs) (pendAll root hs) := by
+  unfold Gen.ZipArchive.extract Gen.ZipArchive.place_entries extractSeek
+  have hl : Rs.X.forRangeK (0 : UInt64) (srcOps hs).len
+      (@Gen.ZipArchive.place_entries.loop1_body pathOps _ _ _ _ _ (fsOps c content) errOps (dirOf root) (srcOps hs)) [] fs
+      = stepResK (placeFiles c true root (hs.map (viewOf content)) fs)
+          (pendAll root (hs.take (placedCount c true root (hs.map (viewOf content)) fs))) := by
     have h0 : ((srcOps hs).len.toNat - (0 : UInt64).toNat) = hs.length := by
       show (UInt64.ofNat hs.length).toNat - 0 = _
       rw [UInt64.toNat_ofNat_of_lt' hlen]; rfl
-    unfold Rs.X.forRange
+    unfold Rs.X.forRangeK
     rw [h0]
     have := loop_eq c content root hs hlen hok hs.length 0 (by omega) [] fs
     simpa using this
-  simp only [bind_apply, hl]
-  rcases placeFiles c true root (hs.map (viewOf content)) fs with ⟨fs1, _ | e⟩
-  · simp only [stepRes, io_apply]
+  simp only [bind_apply, Rs.X.keep, hl]
+  rcases hpf : placeFiles c true root (hs.map (viewOf content)) fs with ⟨fs1, _ | e⟩
+  · have hcnt : placedCount c true root (hs.map (viewOf content)) fs = hs.length := by
+      rw [placedCount_all hpf, List.length_map]
+    simp only [stepResK, hcnt, List.take_length, Rs.X.attempt]
     have ⟨h1, h2⟩ := pendAll_eq root content hs hok
     rw [h1, tie_apply_unix_modes c content root _ h2 fs1]
     show _ = ofModel (applyModes c root (modeOrder (metaOf content hs)) fs1)
     unfold modeOrder
     generalize applyModes c root _ fs1 = r
     rcases r with ⟨fs2, _ | e⟩ <;> rfl
-  · rfl
+  · simp only [stepResK, Rs.X.attempt]
+    have ⟨h1, h2⟩ := pendAll_eq root content _ (handlesOk_take hok (placedCount c true root (hs.map (viewOf content)) fs))
+    rw [h1, tie_apply_unix_modes c content root _ h2 fs1, metaOf_take]
+    show _ = ofModel ((applyModes c root (modeOrder _) fs1).1, some e)
+    unfold modeOrder
+    generalize applyModes c root _ fs1 = r
+    rcases r with ⟨fs2, _ | e2⟩ <;> rfl
 
 /-! ### `ZipStreamReader::extract` -/
 
